@@ -590,7 +590,9 @@ func (c10Stream) Generate(rng *rand.Rand, n int, thorough bool) []Case {
 			// a long pipeline of requests whose handlers are all still blocked when the Unbind is read
 			pre, block = 100+rng.Intn(200), 1
 		}
-		uhold, uctl := 0, rng.Intn(4)/3
+		// (uctl 1: the Unbind carries a control gldap knows; 2: a critical control of the application's own, which gldap
+		// has never heard of - RFC 4511 4.1.11: criticality is ignored on an UnbindRequest)
+		uhold, uctl := 0, []int{0, 0, 0, 1, 2, 2}[rng.Intn(6)]
 		if route == 1 && upanic == 0 && rng.Intn(12) == 0 {
 			uhold = 2600 // an unbind handler that takes its time: the connection is closed when it has returned, not before
 		}
@@ -775,6 +777,8 @@ func (c10Stream) Impl(c Case) string {
 	if p["uctl"] == "1" {
 		// an Unbind may carry controls like any other LDAPMessage (RFC 4511 4.1.1)
 		buf = append(buf, Seq(Int(2, 500), P(1, 2, nil), C(2, 0, Ctl{Kind: "dsait"}.Node())).Ser()...)
+	} else if p["uctl"] == "2" {
+		buf = append(buf, Seq(Int(2, 500), P(1, 2, nil), C(2, 0, Ctl{Kind: "str", OID: "1.3.6.1.4.1.99999.1.7", Crit: true, Value: "bye"}.Node())).Ser()...)
 	} else {
 		buf = append(buf, Seq(Int(2, 500), P(1, 2, nil)).Ser()...)
 	}
